@@ -120,7 +120,9 @@ def run_config(sh, fa, case, cfg, scratch, tag):
         st, err = guard(write_grouped)
         sh.count("writer_class_flush_groupings")
     else:
-        st, err = guard(fa.writer, fo, schema_arg, list(recs), **kw)
+        # records may be any iterable: a list, or a one-shot generator
+        recs_arg = list(recs) if cfg["interval"] % 2 else (r for r in list(recs))
+        st, err = guard(fa.writer, fo, schema_arg, recs_arg, **kw)
     if path:
         fo.close()
     if st == "exc":
